@@ -126,6 +126,10 @@ type c09Op struct {
 func opsFor(round, k int, jt, pt, tt reflect.Type) []c09Op {
 	jv, pv, tv := fillJSON(jt, k), fillProto(pt, k), fillThrift(tt, k)
 	jdoc, _ := stdjson.Marshal(jv.Interface())
+	jdocFold := bytes.ToUpper(bytes.ReplaceAll(jdoc, []byte(`"s"`), []byte(`"S"`)))
+	if !stdjson.Valid(jdocFold) { // (upper-casing touches literals: true / null; keep the document valid)
+		jdocFold = bytes.ReplaceAll(bytes.ReplaceAll(bytes.ReplaceAll(jdocFold, []byte("TRUE"), []byte("true")), []byte("FALSE"), []byte("false")), []byte("NULL"), []byte("null"))
+	}
 	tokdoc := []byte(fmt.Sprintf(`{"a":[1,{"b":%d},"x"],"c":{"d":[true,null]}}`, k))
 	return []c09Op{
 		{"json.Marshal", func() string { b, err := json.Marshal(jv.Interface()); return fmt.Sprintf("%s|%v", b, err) }},
@@ -151,6 +155,13 @@ func opsFor(round, k int, jt, pt, tt reflect.Type) []c09Op {
 		{"json.Unmarshal", func() string {
 			out := reflect.New(jt)
 			err := json.Unmarshal(jdoc, out.Interface())
+			b, _ := stdjson.Marshal(out.Interface())
+			return fmt.Sprintf("%s|%v", b, err)
+		}},
+		{"json.Unmarshal(member names in another case)", func() string {
+			// the case-insensitive match goes through structures of the cached codec that every goroutine shares
+			out := reflect.New(jt)
+			err := json.Unmarshal(jdocFold, out.Interface())
 			b, _ := stdjson.Marshal(out.Interface())
 			return fmt.Sprintf("%s|%v", b, err)
 		}},
